@@ -10,6 +10,16 @@ COMMON_NOTE = ("Trusted base: pyvc engine (AST transform T1-T3 of the real sourc
                "lift to C), A3 (integer powers), A4 (path forking via z3), A5 (numpy shim contracts, listed per run in evidence.trusted_base). ")
 
 CLAIMED = {
+    "C30": dict(
+        category="proof",
+        text=("The real builders gamma_singlet_qed / gamma_valence_qed / gamma_ns_qed (and the per-order builders of as1..as4, fhmruvv, aem1, aem2) executed with symbolic N over "
+              "opaque leaf splitting functions, every order (k,j) with k = 1..4, j = 1..2, nf = 3..6, both N3LO parametrisations: each pure-QCD entry is the embedding of gamma_singlet "
+              "(photon row and column zero, Sigma_Delta == ns+), diag(nsV, ns-) resp. the QCD non-singlet entry of the sector; the up/down non-singlet entries at (0,1), (1,1) are "
+              "e_q^2 times one function and at (0,2) e_q^2 g(e_q^2) with a common g."),
+        note=COMMON_NOTE + "Leaf functions are uninterpreted (their values belong to C24-C27). Precondition for fhmruvv: qq and ns+ variation indices coincide.",
+        technique="contract-based deductive verification: symbolic execution over uninterpreted callee contracts + exact normal form",
+        design_ref="DESIGN.md section 2, C30",
+    ),
     "C51": dict(
         category="proof",
         text=("(1) xi = 1: gamma_variation(_qed) and every expanded factor are the identity, Operator.mu2 and Lsv are unshifted, the varied kernel IS the unvaried kernel "
